@@ -3,7 +3,8 @@
 p=$1; low=$(echo $p | tr A-Z a-z); shift
 cd /verif
 for f in $1; do git add lean/PynguinModel/$f; done
-git add harness/$low.py harness/corpus/$p lean/Driver/$p.lean lean/PynguinModel/Props/$p.lean tools/manifest_entries/$p.json design_notes/$p.md evidence/$p.json 2>/dev/null
-git add known_findings.d/$p.jsonl proposed_fixes/$p-* lean/PynguinModel/Generated/$p* harness/${low}_*.py 2>/dev/null
+for f in harness/$low.py harness/corpus/$p lean/Driver/$p.lean lean/PynguinModel/Props/$p.lean tools/manifest_entries/$p.json design_notes/$p.md evidence/$p.json known_findings.d/$p.jsonl proposed_fixes/$p-* lean/PynguinModel/Generated/$p* harness/${low}_*.py; do
+  [ -e "$f" ] && git add "$f"
+done
 grep -qx "$p" tools/integrated.txt || echo "$p" >> tools/integrated.txt; git add tools/integrated.txt; python3 tools/gen_manifest.py; git add MANIFEST.json
 git commit -qm "$2"; git log --oneline | head -1
